@@ -1291,7 +1291,7 @@ impl Prop for C18 {
                 "float text is judged numerically (token must be a decimal number that parses back to the same f32/f64; NaN/inf by any spelling the Rust parser accepts); how bytes outside the string's character set are displayed is not judged; a blank between raw bytes is optional".into(),
                 "messages are built as DltMessage structs (verbose, noar = number of arguments); header parsing is C01/C02".into(),
             ],
-            budget_s: (35, 1200),
+            budget_s: (90, 1200),
             workers: 0,
             required_landmarks: vec![
                 "roundtrip_clean",
